@@ -243,7 +243,7 @@ func (p Program) ProfileYAML() string {
 	if name == "" {
 		name = "P"
 	}
-	fmt.Fprintf(&sb, "profile: %s\nprefixes:\n  ex: %s\n", name, ExNS)
+	fmt.Fprintf(&sb, "profile: %s\nprefixes:\n  ex: %s\n", yamlName(name), ExNS)
 	for k, v := range p.Prefixes {
 		fmt.Fprintf(&sb, "  %s: %s\n", k, v)
 	}
@@ -262,13 +262,13 @@ func (p Program) ProfileYAML() string {
 		if len(names) > 0 {
 			fmt.Fprintf(&sb, "%s:\n", lvl)
 			for _, n := range names {
-				fmt.Fprintf(&sb, "  - %s\n", n)
+				fmt.Fprintf(&sb, "  - %s\n", yamlName(n))
 			}
 		}
 	}
 	sb.WriteString("validations:\n")
 	for _, v := range p.Validations {
-		fmt.Fprintf(&sb, "  %s:\n", v.Name)
+		fmt.Fprintf(&sb, "  %s:\n", yamlName(v.Name))
 		if v.Message != "" {
 			fmt.Fprintf(&sb, "    message: %q\n", v.Message)
 		}
@@ -672,3 +672,18 @@ func (r *Ref) Holds(f Formula, i int) (*smt.Term, *smt.Term) {
 
 // Target: node i exists and is an instance of class c.
 func (r *Ref) Target(i, c int) *smt.Term { return smt.And(r.G.Exists[i], r.G.HasClass[i][c]) }
+
+// yamlName writes a profile name as a YAML scalar: plain when it is a simple word, double-quoted
+// (backslash and double quote escaped) otherwise.
+func yamlName(n string) string {
+	simple := n != ""
+	for _, r := range n {
+		if !(r >= 'a' && r <= 'z' || r >= 'A' && r <= 'Z' || r >= '0' && r <= '9' || r == '_' || r == '-') {
+			simple = false
+		}
+	}
+	if simple {
+		return n
+	}
+	return "\"" + strings.NewReplacer("\\", "\\\\", "\"", "\\\"").Replace(n) + "\""
+}
